@@ -29,6 +29,12 @@ func init() {
 
 // C08: "a tree just created by Mkdir with any extension list verifies strictly" – on the real code.
 func runMkdirThenVerify(c Case) []Diff {
+	orig := c.Exts
+	c.Exts = ownExts(orig)
+	return append(runMkdirThenVerify1(c), extsDiff(orig, c.Exts)...)
+}
+
+func runMkdirThenVerify1(c Case) []Diff {
 	jail := newJail()
 	defer os.RemoveAll(jail)
 	target := filepath.Join(jail, c.Target)
@@ -54,6 +60,13 @@ var summaryRe = regexp.MustCompile(`(?m)^(\d+) directories, (\d+) files$`)
 // C09: the dry-run counts equal what a real Mkdir with the same extensions creates, and dry run
 // rejects iff the real run rejects because of names – on the real code.
 func runDryPredictsReal(c Case) []Diff {
+	// one slice of the caller's for the dry run, the real run and the massive dry run, as a caller would reuse it
+	orig := c.Exts
+	c.Exts = ownExts(orig)
+	return append(runDryPredictsReal1(c), extsDiff(orig, c.Exts)...)
+}
+
+func runDryPredictsReal1(c Case) []Diff {
 	var rep bytes.Buffer
 	derr := gtree.OutputFromMarkdown(&rep, bytes.NewReader(c.doc()), gtree.WithDryRun(), gtree.WithFileExtensions(c.Exts))
 	jail := newJail()
